@@ -25,8 +25,8 @@ def gen_template(rng):
             r = rng.random()
             if r < 0.6:
                 p = rng.choice(pars)
-                c1 = rng.choice([1, 2, -1, 0.5, -1.61, 3, 0.238, 1.25])
-                c0 = rng.choice([0, 0, 1, -1, 2.162, 0.5])
+                c1, c0 = rng.choice([(1, 0), (2, 0), (-1, 0), (0.5, 0), (-1.61, 0), (3, 1), (0.238, -1), (1.25, 2.162), (2, 0.5), (1, 1), (-1, 0.5),
+                                     (6.283185307179586, -1), (6.283185307179586, 0), (3, 100), (0.001, 0), (1 / 3, 0)])
                 if c1 == 1 and c0 == 0:
                     args.append("{%s}" % p)
                 elif c0 == 0:
@@ -77,7 +77,9 @@ def check_case(rng, impl, quick):
     if not t.is_template():
         return None, None
     used = sorted(t.parameters)
-    sigma = {p: rng.choice([round(rng.uniform(0.11, 2.9), rng.randint(2, 6)), -round(rng.uniform(0.11, 2.9), 4)]) for p in used}
+    # generic values of every magnitude that keeps the affine maps below well conditioned (|c1 * v| is never tiny next to |c0|)
+    sigma = {p: rng.choice([round(rng.uniform(0.11, 2.9), rng.randint(2, 6)), -round(rng.uniform(0.11, 2.9), 4),
+                            round(rng.uniform(1e3, 1e7), 3), -round(rng.uniform(1e4, 5e6), 2)]) for p in used}
     inst = t(**sigma)
     # the instantiated program as a script, operations reordered preserving the order on every mode
     perm = shuffle_preserving(rng, ops)
